@@ -414,7 +414,17 @@ def run(ctx):
     for st in loops:
         if isinstance(st.iter, ast.Call) and call_name(st.iter) == "enumerate" and isinstance(st.target, ast.Tuple):
             iv = st.target.elts[0].id
-            ok = any(isinstance(b, ast.Assign) and ast.unparse(b.targets[0]) == f"atoms.coord[{iv}]" for b in st.body)
+            ok = any(isinstance(b, ast.Assign) and same_expr(b.targets[0], f"atoms.coord[{iv}]") for b in st.body)
+    # the same in one expression: the models are the conformers' positions in list order
+    for st in ast.walk(fm):
+        if isinstance(st, ast.Assign) and len(st.targets) == 1 and same_expr(st.targets[0], "atoms.coord") and isinstance(st.value, ast.Call) \
+                and call_name(st.value) in ("np.array", "np.stack", "np.asarray") and st.value.args and isinstance(st.value.args[0], ast.ListComp) \
+                and len(st.value.args[0].generators) == 1 and not st.value.args[0].generators[0].ifs:
+            g_ = st.value.args[0].generators[0]
+            if isinstance(g_.target, ast.Name) and same_expr(g_.iter, "conformers") and any(
+                    isinstance(c_, ast.Call) and isinstance(c_.func, ast.Attribute) and c_.func.attr == "GetPositions" and same_expr(c_.func.value, g_.target.id)
+                    for c_ in ast.walk(st.value.args[0].elt)):
+                ok = True
     ctx.ob("R4.model-is-conformer-position", RDK, "from_mol", "atoms.coord[i] for i, conformer in enumerate(conformers)", ok,
            "models must be filled by the position of the conformer in the list: to_mol adds conformers "
            "without assigning ids, so ids are not a valid model index", fm.lineno)
